@@ -24,6 +24,7 @@ def run(chk):
     from .c13 import r13h
 
     r13h(chk, 'R06.h')
+    r06i(chk)
 
 
 def pref_sets(repo):
@@ -104,8 +105,8 @@ def r06b(chk, rid='R06.b'):
 
 
 def r06f(chk, rid='R06.f'):
-    chk.rule(rid, 'the preferences that select declarations, decided by evaluation: CSSSerializer.do_css_CSSStyleDeclaration is evaluated on its syntax tree over a model block (comment, an overridden and an effective declaration of one name, another declaration, a nested unknown at-rule, a declaration that serialises to nothing) for every combination of keepAllProperties, keepComments, keepUnknownAtRules, omitLastSemicolon and the omit argument: exactly the effective declarations (all of them under keepAllProperties) are written, in order, separated by semicolons; comments exactly under keepComments; the preferences do not interfere with each other')
-    chk.assume('R06.f: properties, comments and unknown rules are model objects with a fixed cssText')
+    chk.rule(rid, 'the preferences that select declarations, decided by evaluation: CSSSerializer.do_css_CSSStyleDeclaration is evaluated on its syntax tree over five model blocks (comment, repeated declarations of one name with !important in front, behind, twice and between plain ones, another declaration, a nested unknown at-rule, a declaration that serialises to nothing; the effective declaration of a name is its last !important one, else its last) for every combination of keepAllProperties, keepComments, keepUnknownAtRules, omitLastSemicolon and the omit argument: exactly the effective declarations (all of them under keepAllProperties) are written, in order, separated by semicolons; comments exactly under keepComments; the preferences do not interfere with each other')
+    chk.assume('R06.f: properties, comments and unknown rules are model objects with a fixed cssText, name and priority; getProperties of the model block answers with the prescribed view (R10.c decides that the real one does)')
     import itertools
 
     from sa.absint import Evaluator, Raised, Record
@@ -122,33 +123,58 @@ def r06f(chk, rid='R06.f'):
     class UnkM(Record):
         pass
 
-    a1, b, a2, empty = PropM(cssText='a:1', name='a'), PropM(cssText='b:2', name='b'), PropM(cssText='a:3', name='a'), PropM(cssText='', name='e')
-    items = [Record(value=CommM(cssText='/*c*/')), Record(value=a1), Record(value=b), Record(value=UnkM(cssText='@x;')), Record(value=a2), Record(value=empty)]
-    style = Record(seq=items, getProperties=lambda name=None, all=False: [a1, b, a2, empty] if all else [b, a2, empty])
+    def P(name, val, prio=''):
+        return PropM(cssText=f'{name}:{val}' + (' !important' if prio else ''), name=name, literalname=name, priority=prio, value=val, literalpriority=prio, wellformed=True, valid=True)
+
+    def effective(props):
+        last = {}
+        for p_ in props:
+            cur = last.get(p_.name)
+            if cur is None or not cur.priority or p_.priority:
+                last[p_.name] = p_
+        return [p_ for p_ in props if last[p_.name] is p_]
+
+    blocks = {
+        'plain': [P('a', 1), P('b', 2), P('a', 3)],
+        'important first': [P('a', 1, 'important'), P('b', 2), P('a', 3)],
+        'important last': [P('a', 1), P('b', 2), P('a', 3, 'important')],
+        'two important': [P('a', 1, 'important'), P('b', 2), P('a', 3, 'important')],
+        'important between': [P('a', 1), P('a', 2, 'important'), P('b', 2), P('a', 3)],
+    }
     n = 0
     bad = []
-    for keepall, keepc, keepu, omitlast, omit in itertools.product((True, False), repeat=5):
-        prefs = Record(keepAllProperties=keepall, keepComments=keepc, keepUnknownAtRules=keepu, omitLastSemicolon=omitlast, lineSeparator='\n')
-        intr = {'cssutils': Record(css=Record(Property=PropM, CSSComment=CommM, CSSUnknownRule=UnkM))}
-        got = Evaluator(fn, intrinsics=intr, module=m, cls='CSSSerializer').run(self=Record(prefs=prefs), style=style, separator=None, omit=omit)
-        n += 1
-        label = f'keepAllProperties={keepall} keepComments={keepc} keepUnknownAtRules={keepu} omitLastSemicolon={omitlast} omit={omit}'
-        if isinstance(got, Raised) or not isinstance(got, str):
-            bad.append(f'{label}: {got!r}')
-            continue
-        lines = [x for x in got.split('\n') if x]
-        props = [x.rstrip(';') for x in lines if x[:2] in ('a:', 'b:')]
-        want = ['a:1', 'b:2', 'a:3'] if keepall else ['b:2', 'a:3']
-        probs = []
-        if props != want:
-            probs.append(f'declarations {props}, prescribed {want}')
-        if ('/*c*/' in lines) != keepc:
-            probs.append('comment ' + ('dropped' if keepc else 'kept'))
-        unterminated = [x for x in lines[:-1] if x[:2] in ('a:', 'b:') and not x.endswith(';')]
-        if unterminated:
-            probs.append(f'no semicolon after {unterminated}')
-        if probs:
-            bad.append(f'{label}: ' + '; '.join(probs))
+    for bname, props in blocks.items():
+        empty = PropM(cssText='', name='e', literalname='e', priority='', value='', literalpriority='', wellformed=True, valid=True)
+        items = [Record(value=CommM(cssText='/*c*/')), Record(value=props[0])] + [Record(value=p_) for p_ in props[1:-1]] + [Record(value=UnkM(cssText='@x;')), Record(value=props[-1]), Record(value=empty)]
+        eff = effective(props + [empty])
+
+        def get_properties(name=None, all=False, props=props, empty=empty, eff=eff):  # noqa: A002
+            sel = (props + [empty]) if all else eff
+            return [p_ for p_ in sel if name is None or p_.name == name]
+
+        style = Record(seq=items, getProperties=get_properties, getProperty=lambda name, eff=eff: ([p_ for p_ in eff if p_.name == name] or [None])[0])
+        for keepall, keepc, keepu, omitlast, omit in itertools.product((True, False), repeat=5):
+            prefs = Record(keepAllProperties=keepall, keepComments=keepc, keepUnknownAtRules=keepu, omitLastSemicolon=omitlast, lineSeparator='\n')
+            intr = {'cssutils': Record(css=Record(Property=PropM, CSSComment=CommM, CSSUnknownRule=UnkM))}
+            got = Evaluator(fn, intrinsics=intr, module=m, cls='CSSSerializer', model_types=(PropM, CommM, UnkM)).run(self=Record(prefs=prefs), style=style, separator=None, omit=omit)
+            n += 1
+            label = f'{bname}: keepAllProperties={keepall} keepComments={keepc} keepUnknownAtRules={keepu} omitLastSemicolon={omitlast} omit={omit}'
+            if isinstance(got, Raised) or not isinstance(got, str):
+                bad.append(f'{label}: {got!r}')
+                continue
+            lines = [x for x in got.split('\n') if x]
+            written = [x.rstrip(';') for x in lines if x[:2] in ('a:', 'b:')]
+            want = [p_.cssText for p_ in (props if keepall else eff) if p_.cssText]
+            probs = []
+            if written != want:
+                probs.append(f'declarations {written}, prescribed {want}')
+            if ('/*c*/' in lines) != keepc:
+                probs.append('comment ' + ('dropped' if keepc else 'kept'))
+            unterminated = [x for x in lines[:-1] if x[:2] in ('a:', 'b:') and not x.endswith(';')]
+            if unterminated:
+                probs.append(f'no semicolon after {unterminated}')
+            if probs:
+                bad.append(f'{label}: ' + '; '.join(probs))
     chk.extra['declaration_preference_cases'] = n
     chk.ob(rid, SER, 'CSSSerializer.do_css_CSSStyleDeclaration', f'all {n} preference combinations select and separate the declarations as documented', not bad, f'{len(bad)} combinations differ, e.g. ' + ' | '.join(bad[:2]))
 
@@ -227,3 +253,48 @@ def r06g(chk, rid='R06.g'):
             bad.append(f'{label!r} with spacer={spacer!r}, selectorCombinatorSpacer={scs!r} is written {got!r}, prescribed {want!r}')
     chk.extra['selector_spacing_cases'] = n
     chk.ob(rid, SER, 'Out.append', f'all {n} selector / spacer combinations keep the descendant combinator', not bad, f'{len(bad)} differ, e.g. ' + ' | '.join(bad[:2]) + ' - without the blank the selector means something else')
+
+
+def r06i(chk, rid='R06.i'):
+    chk.rule(rid, 'serialised text is computed, never kept: outside serialize.py every call of a serializer method (cssutils.ser.do_*) stands in a function or lambda that stores nothing on its receiver (no attribute or item of `self`), and its result is not bound to anything but a local that is returned - the text a DOM object shows is a function of its content and the preferences in force at the time of the call, so a preference changed between two reads always shows')
+    sites = 0
+    for rel, m in chk.repo.modules.items():
+        if rel in (SER, 'cssutils/sac.py') or '/tests/' in rel or rel.startswith('examples/'):
+            continue
+        for n in ast.walk(m.tree):
+            if not (isinstance(n, ast.Call) and re.match(r'^(cssutils\.)?ser\.do_\w+$', call_name(n))):
+                continue
+            sites += 1
+            fn = m.enclosing_def(n)
+            # innermost function or lambda
+            p = m.parents.get(n)
+            holder = None
+            while p is not None:
+                if isinstance(p, (ast.Lambda, ast.FunctionDef)):
+                    holder = p
+                    break
+                p = m.parents.get(p)
+            if holder is None:
+                continue
+            q = m.qualname_of(n)
+            stores = []
+            for x in ast.walk(holder):
+                tg = []
+                if isinstance(x, ast.Assign):
+                    tg = x.targets
+                elif isinstance(x, (ast.AugAssign, ast.AnnAssign)):
+                    tg = [x.target]
+                for t in tg:
+                    for t2 in (t.elts if isinstance(t, (ast.Tuple, ast.List)) else [t]):
+                        base = t2
+                        while isinstance(base, (ast.Attribute, ast.Subscript)):
+                            base = base.value
+                        if isinstance(t2, (ast.Attribute, ast.Subscript)) and isinstance(base, ast.Name) and base.id == 'self':
+                            stores.append(text(x)[:60])
+                if isinstance(x, ast.Call) and isinstance(x.func, ast.Attribute) and x.func.attr in ('setdefault', 'update', '__setitem__', 'append') and text(x.func.value).startswith('self.') and x is not n:
+                    stores.append(text(x)[:60])
+            chk.ob(rid, rel, q, f'`{text(n)[:50]}` is computed on every read (the function stores nothing on its receiver)', not stores,
+                   f'stores {stores[:2]}: a text served from a cache ignores preferences changed since it was built (keepComments, spacers, useMinified/useDefaults) - the serialisation is no longer a function of content and preferences', trivial=True)
+    if sites < 30:
+        raise AnalysisError(f'only {sites} serializer calls found in the DOM classes (30+ confirmed by hand)')
+    chk.extra['serializer_call_sites'] = sites
